@@ -9,6 +9,7 @@ import (
 	"io"
 	"math/big"
 	"math/rand"
+	"strings"
 	"time"
 
 	"git.metabarcoding.org/obitools/obitools4/obitools4/pkg/obifp"
@@ -162,12 +163,57 @@ func bNot(a, b *big.Int, n uint, w uint) (*big.Int, []int64, bool, bool) {
 	return new(big.Int).Xor(a, all), nil, true, false
 }
 func bShl(a, b *big.Int, n uint, w uint) (*big.Int, []int64, bool, bool) {
+	if n >= w { // every bit is moved out of the word (also keeps math/big away from 2^63-bit numbers)
+		return new(big.Int), nil, true, false
+	}
 	v := new(big.Int).Lsh(a, n)
 	v.Mod(v, new(big.Int).Lsh(big.NewInt(1), w))
 	return v, nil, true, false
 }
 func bShr(a, b *big.Int, n uint, w uint) (*big.Int, []int64, bool, bool) {
+	if n >= w {
+		return new(big.Int), nil, true, false
+	}
 	return new(big.Int).Rsh(a, n), nil, true, false
+}
+
+// bShl64 / bShr64: the documented single-limb primitives the wider shifts are chained from, for 0 <= n <= 64:
+// LeftShift64 returns (u<<n | the n lowest bits of carryIn, the n bits moved out at the top);
+// RightShift64 returns (u>>n | the n highest bits of carryIn, the n bits moved out, left aligned).
+// Both results are packed as carry<<64 | value. n > 64 is not specified anywhere: outside the property.
+func bShl64(a, b *big.Int, n uint, w uint) (*big.Int, []int64, bool, bool) {
+	if n > 64 {
+		return nil, nil, true, true
+	}
+	u, cin := a.Uint64(), b.Uint64()
+	var v, co uint64
+	switch {
+	case n == 0:
+		v, co = u, 0
+	case n == 64:
+		v, co = cin, u
+	default:
+		v, co = u<<n|cin&(uint64(1)<<n-1), u>>(64-n)
+	}
+	r := new(big.Int).SetUint64(co)
+	return r.Lsh(r, 64).Add(r, new(big.Int).SetUint64(v)), nil, true, false
+}
+func bShr64(a, b *big.Int, n uint, w uint) (*big.Int, []int64, bool, bool) {
+	if n > 64 {
+		return nil, nil, true, true
+	}
+	u, cin := a.Uint64(), b.Uint64()
+	var v, co uint64
+	switch {
+	case n == 0:
+		v, co = u, 0
+	case n == 64:
+		v, co = cin, u
+	default:
+		v, co = u>>n|cin&^(uint64(1)<<(64-n)-1), u<<(64-n)
+	}
+	r := new(big.Int).SetUint64(co)
+	return r.Lsh(r, 64).Add(r, new(big.Int).SetUint64(v)), nil, true, false
 }
 func bDiv(a, b *big.Int, n uint, w uint) (*big.Int, []int64, bool, bool) {
 	if b.Sign() == 0 {
@@ -218,6 +264,14 @@ func ops64() []opCase {
 	return []opCase{
 		{name: "LeftShift", run: func(a, b []uint64, n uint) outcome { return val(m64(a).LeftShift(n).VerifLimbs()) }, exp: bShl},
 		{name: "RightShift", run: func(a, b []uint64, n uint) outcome { return val(m64(a).RightShift(n).VerifLimbs()) }, exp: bShr},
+		{name: "LeftShift64", resLimbs: 2, exp: bShl64, run: func(a, b []uint64, n uint) outcome {
+			v, co := m64(a).LeftShift64(n, b[0])
+			return val([]uint64{co, v})
+		}},
+		{name: "RightShift64", resLimbs: 2, exp: bShr64, run: func(a, b []uint64, n uint) outcome {
+			v, co := m64(a).RightShift64(n, b[0])
+			return val([]uint64{co, v})
+		}},
 		{name: "Add", signals: true, run: func(a, b []uint64, n uint) outcome { return val(m64(a).Add(m64(b)).VerifLimbs()) }, exp: bAdd},
 		{name: "Sub", signals: true, run: func(a, b []uint64, n uint) outcome { return val(m64(a).Sub(m64(b)).VerifLimbs()) }, exp: bSub},
 		{name: "Mul", signals: true, run: func(a, b []uint64, n uint) outcome { return val(m64(a).Mul(m64(b)).VerifLimbs()) }, exp: bMul},
@@ -377,7 +431,7 @@ func evalOne(c *core.Ctx, op opCase, limbs int, a, b []uint64, n uint) (detail m
 	got := guarded(func() outcome { return op.run(a, b, n) })
 	detail = map[string]any{"type": fmt.Sprintf("Uint%d", width), "op": op.name, "a": hex(a), "b": hex(b), "n": n}
 	cls := op.name
-	if op.name == "LeftShift" || op.name == "RightShift" {
+	if strings.HasSuffix(op.name, "Shift") || strings.HasSuffix(op.name, "Shift64") {
 		cls += ":shift:" + shiftRange(n)
 	}
 	classA := "fit"
@@ -474,6 +528,9 @@ func runType(c *core.Ctx, limbs int, ops []opCase) {
 		default:
 			n = uint(c.Rng.Intn(int(width) + 65))
 		}
+		if c.Rng.Intn(12) == 0 { // "any amount": far beyond the width, where a signed conversion would go negative
+			n = hugeShifts[c.Rng.Intn(len(hugeShifts))] + uint(c.Rng.Intn(3)) - 1
+		}
 		detail, evaluated, stop := evalOne(c, op, limbs, a, b, n)
 		if !evaluated {
 			continue
@@ -489,6 +546,8 @@ func runType(c *core.Ctx, limbs int, ops []opCase) {
 	c.Count("evaluations", evals)
 	c.Count("evaluations."+op.name, evals)
 }
+
+var hugeShifts = []uint{1 << 31, 1 << 32, 1 << 62, 1 << 63, 1<<63 + 64, 1<<63 + 256, ^uint(0) - 1, ^uint(0) - 64, ^uint(0) - 255}
 
 // crossWords: the limb values the boundary cross product is built from.
 var crossWords = []uint64{0, 1, 2, 3, 0x00000000ffffffff, 0x0000000100000000, 0x0000000100000001, 0x7fffffffffffffff, 0x8000000000000000, 0xfffffffffffffffe, 0xffffffffffffffff}
@@ -542,7 +601,7 @@ func runCross(c *core.Ctx, limbs int, ops []opCase) {
 		words = []uint64{0, 1, 3, 0x00000000ffffffff, 0x0000000100000001, 0x7fffffffffffffff, 0xffffffffffffffff}
 	}
 	set := boundarySet(limbs, words, int64(c.Pick(1, 2)))
-	shifts := []uint{0, 1, 63, 64, 65, 127, 128, 129, 191, 192, 255, 256, 257, 300}
+	shifts := []uint{0, 1, 63, 64, 65, 127, 128, 129, 191, 192, 255, 256, 257, 300, 1 << 63, ^uint(0), 31, 32, 33}
 	evals := 0
 	for ia := c.Idx; ia < len(set); ia += crossShards {
 		a := set[ia]
@@ -574,6 +633,7 @@ func init() {
 		ID:    "C20",
 		Level: "exploration",
 		Rule: "each case = one (type, operation) applied to a batch of operand pairs drawn from per-limb boundary words, 2^k-1/2^k/2^k+1, equal and neighbouring operands, random bit lengths and random values, shift amounts 0..width+64 with emphasis on multiples of 64 +-1; the -cross sub-checks apply every operation to EVERY ordered pair of a boundary set (values with one or two adjacent non-zero limbs out of 7 (quick) / 11 (thorough) boundary words, each -1..+1 (quick) / -2..+2 (thorough), and the 8 largest values); " +
+			"Added later: shift amounts far beyond the width (2^31, 2^32, 2^62, 2^63, 2^64-1 and neighbours), the single-limb primitives Uint64.LeftShift64/RightShift64 for n = 0..64 with arbitrary carry-in words (documented result u<<n | low n bits of the carry). " +
 			"oracle math/big on raw limbs; distinct_nontrivial = distinct (type, operation, fits/overflows, limb count of a, limb count of b, shift range) classes actually evaluated; division by zero and narrowing of values that do not fit are outside the property and skipped",
 		Assume: []string{"math/big is exact", "the overflow signal is the recoverable log.Panicf of the library", "an operation on at most 256 bits that does not return within 30 s never returns"},
 		Subs: []core.Sub{
